@@ -1,5 +1,9 @@
+import os, sys
+sys.path.insert(0, os.path.dirname(os.path.dirname(os.path.abspath(__file__))))
+from srcgen import regen_src  # pre-build generator: Go source -> Gen/SrcPure.v
 PROP = {
-    "coq": ["C18", "C18b", "C18c"],
+    "pre": [regen_src],
+    "coq": ["C18", "C18b", "C18c", "C12t"],
     "exhaustive": False,
     "rule": "Scenario alias: for both framings (MBAP, RTU over a scripted connection), all four encodings and the eight write calls taking "
             "a slice (WriteBytes, WriteRawBytes, WriteCoils, WriteRegisters, WriteUint32s, WriteUint64s, WriteFloat32s, WriteFloat64s): "
